@@ -393,8 +393,10 @@ fn bulk_op(rng: &mut Rng, ctx: &Ctx, fam: &Fam, kind: &str, n: usize, with_edges
             *q = (a, b);
         }
     }
-    else if rng.chance(3) && !matches!(fam.name.as_str(), "grid" | "line" | "circle" | "offset" | "tiny") {
-        // (not under the integer families: the model comparisons assume small integer coordinates there)
+    else if rng.chance(4) && matches!(fam.name.as_str(), "cluster" | "neardeg" | "magn" | "scaled" | "wide") {
+        // (only under the near-degenerate float families: the model comparisons of the integer
+        // families assume small integer coordinates, and tight clusters are the regime of findings
+        // K1 / K13 / K14, whose signatures name these families)
         // a few hundred points in tight clusters (grids of adjacent floats around a few centres):
         // the sweep skips many of them and inserts them one by one afterwards, with more than 256
         // vertices the hierarchy hint generator has several layers by then
